@@ -253,6 +253,46 @@ def h_lookup_real(ctx, n):
                                          pm.nw_dst.toUnsigned() == p['nw_dst']))
 
 
+def h_lookup_twice(ctx, nframes):
+  """a lookup is a function of the table and the frame: nframes TCP frames of one conversation pair (fixed addresses; ports, ingress port symbolic)
+  are looked up one after the other in an unchanged table - each answer is judged on its own, whatever was looked up before"""
+  of = ctx.pox('pox.openflow.libopenflow_01')
+  ft = ctx.pox('pox.openflow.flow_table')
+  pkt = ctx.pox('pox.lib.packet')
+  from symx.core import SymBytes
+  t = ft.FlowTable()
+  entries = []
+  for i in range(2):
+    m = of.ofp_match(dl_type=0x0800, nw_proto=6)
+    sel = int(ctx.int('sel%d' % i, 0, 3))
+    if sel == 0: m.tp_dst = ctx.int('e%d_tp_dst' % i, 0, 0xffff)
+    elif sel == 1: m.tp_src = ctx.int('e%d_tp_src' % i, 0, 0xffff)
+    elif sel == 2: m.in_port = ctx.int('e%d_in_port' % i, 0, 0xffff)
+    else: m = of.ofp_match()
+    e = ft.TableEntry(priority=ctx.int('prio%d' % i, 0, 0xffff), match=m, now=0)
+    t.add_entry(e); entries.append(e)
+  answers = []
+  for k in range(nframes):
+    sport = ctx.int('sport%d' % k, 0, 0xffff); dport = ctx.int('dport%d' % k, 0, 0xffff); in_port = ctx.int('in_port%d' % k, 0, 0xffff)
+    iphdr = [0x45, 0, 0, 40, 0, 0, 0, 0, 64, 6, 0, 0] + [10, 0, 0, 1] + [10, 0, 0, 2]
+    tcphdr = be(sport, 2) + be(dport, 2) + [0] * 8 + [0x50, 0x02, 0, 0, 0, 0, 0, 0]
+    frame = [2, 0, 0, 0, 0, 2] + [2, 0, 0, 0, 0, 1] + [0x08, 0x00] + iphdr + tcphdr
+    eth = pkt.ethernet(SymBytes(frame) if ctx.sym else bytes(frame))
+    got = t.entry_for_packet(eth, in_port)
+    pm = of.ofp_match.from_packet(eth, in_port, spec_frags=True)
+    hits = [e for e in entries if e.match.matches_with_wildcards(pm, consider_other_wildcards=False)]
+    tag = 'frame %d: ' % k
+    ctx.check(tag + 'miss iff nothing matches', (got is None) == (len(hits) == 0))
+    if got is not None:
+      ctx.check(tag + 'returned entry matches', any(h is got for h in hits))
+      for h in hits: ctx.check(tag + 'no better match', h.effective_priority <= got.effective_priority)
+    answers.append(got)
+    ctx.check(tag + 'table untouched by a lookup', len(t._table) == 2)
+  if any(a is not answers[0] for a in answers): ctx.witness('different-answers')
+  if answers[0] is not None and any(a is None for a in answers[1:]): ctx.witness('miss-after-hit')
+  if answers[0] is not None and all(a is answers[0] for a in answers): ctx.witness('same-entry')
+
+
 def h_resubmit(ctx, field):
   """The switch looks a frame up *as it is at that moment*: a frame that missed the table and was buffered is sent back to the table
   (packet_out with the buffer id, a header rewrite and output to OFPP_TABLE - the virtual-IP / load-balancer pattern); the second lookup must
@@ -443,6 +483,8 @@ def obligations(tier):
                desc='an entry whose flow_mod also drew an error reply (unknown buffer id) keeps matching the frames it describes'),
     Obligation('O4_resubmit', h_resubmit, [dict(field=f) for f in ('nw_dst', 'dl_dst')], witnesses=('hit-high', 'hit-low', 'miss'),
                desc='a buffered frame sent back to the table after a header rewrite (packet_out: set field, output OFPP_TABLE) is looked up by its current headers'),
+    Obligation('O6_lookup_twice', h_lookup_twice, [dict(nframes=2)] + ([dict(nframes=3)] if thorough else []), witnesses=('different-answers', 'miss-after-hit', 'same-entry'), max_decisions=20000,
+               desc='consecutive lookups of different frames in an unchanged table: each answer is right on its own (a lookup keeps no state)'),
     Obligation('O3_lookup_frame', h_lookup_real, [dict(n=1)] + ([dict(n=2)] if thorough else []), witnesses=('hit',),
                desc='entry_for_packet on a TCP frame with symbolic addresses/ports: parse + from_packet + lookup'),
   ]
